@@ -26,12 +26,14 @@ import (
 
 	"github.com/mandykoh/prism"
 	"github.com/mandykoh/prism/adobergb"
+	"github.com/mandykoh/prism/cielab"
 	"github.com/mandykoh/prism/ciexyy"
 	"github.com/mandykoh/prism/ciexyz"
 	"github.com/mandykoh/prism/displayp3"
 	"github.com/mandykoh/prism/linear"
 	"github.com/mandykoh/prism/meta"
 	"github.com/mandykoh/prism/meta/autometa"
+	"github.com/mandykoh/prism/meta/icc"
 	"github.com/mandykoh/prism/meta/jpegmeta"
 	"github.com/mandykoh/prism/meta/pngmeta"
 	"github.com/mandykoh/prism/meta/webpmeta"
@@ -364,6 +366,55 @@ func scenarios() []scenario {
 		}
 		out = append(out, scenario{fmt.Sprintf("free/%d goroutines at first use, all spaces", n), ts})
 	}
+	// colorimetry and profile parsing from two goroutines: anything memoised there
+	// (matrices keyed on part of their input, parsed profiles keyed by ID) shows
+	// as a wrong value under some interleaving
+	xyyp := func(x, y, yy float32) ciexyy.Color { return ciexyy.Color{X: x, Y: y, YY: yy} }
+	convert := func(c color.NRGBA, toPro bool) func() string {
+		return func() string {
+			if toPro {
+				in, a := srgb.ColorFromNRGBA(c)
+				ad := ciexyz.AdaptBetweenXYYWhitePoints(srgb.StandardWhitePoint, prophotorgb.StandardWhitePoint)
+				return fmt.Sprint(prophotorgb.ColorFromXYZ(ad.Apply(in.ToXYZ())).ToNRGBA(a))
+			}
+			in, a := prophotorgb.ColorFromNRGBA(c)
+			ad := ciexyz.AdaptBetweenXYYWhitePoints(prophotorgb.StandardWhitePoint, srgb.StandardWhitePoint)
+			return fmt.Sprint(srgb.ColorFromXYZ(ad.Apply(in.ToXYZ())).ToNRGBA(a))
+		}
+	}
+	iccWithID := func(flags, intent byte) []byte {
+		p := make([]byte, 128)
+		p[3], p[8] = 132, 4
+		copy(p[36:], "acsp")
+		p[47], p[67] = flags, intent
+		for i := 84; i < 100; i++ {
+			p[i] = byte(i)
+		}
+		return append(p, 0, 0, 0, 0)
+	}
+	readICC := func(b []byte) func() string {
+		return func() string {
+			pr, err := icc.NewProfileReader(bytes.NewReader(b)).ReadProfile()
+			if err != nil {
+				return "err " + err.Error()
+			}
+			return fmt.Sprintf("%+v", pr.Header)
+		}
+	}
+	out = append(out,
+		scenario{"ciexyz/two primaries matrices, same chromaticities, different white luminance", par(
+			func() string {
+				return fmt.Sprint(ciexyz.TransformToXYZForXYYPrimaries(xyyp(0.64, 0.33, 1), xyyp(0.3, 0.6, 1), xyyp(0.15, 0.06, 1), xyyp(0.3127, 0.329, 1)))
+			},
+			func() string {
+				return fmt.Sprint(ciexyz.TransformFromXYZForXYYPrimaries(xyyp(0.64, 0.33, 1), xyyp(0.3, 0.6, 1), xyyp(0.15, 0.06, 1), xyyp(0.3127, 0.329, 0.5)))
+			})},
+		scenario{"ciexyz/Lab both ways", par(
+			func() string { return fmt.Sprint(ciexyz.Color{X: 0.2, Y: 0.3, Z: 0.1}.ToLAB(ciexyz.D50)) },
+			func() string { return fmt.Sprint(ciexyz.ColorFromLAB(cielab.Color{L: 50, A: 20, B: -30}, ciexyz.D65)) })},
+		scenario{"convert/srgb->prophoto vs prophoto->srgb", par(convert(color.NRGBA{R: 200, G: 100, B: 50, A: 255}, true), convert(color.NRGBA{R: 20, G: 200, B: 90, A: 128}, false))},
+		scenario{"icc/two ReadProfile, same profile ID, different flags and intent", par(readICC(iccWithID(1, 0)), readICC(iccWithID(2, 3)))},
+	)
 	// larger workloads, only for the free-running -race pass (name prefix "free/")
 	bigLin := func(name string, f func(dst *image.RGBA64, src image.Image, p int), p int) scenario {
 		return scenario{fmt.Sprintf("free/%s 100x120 parallelism %d", name, p), par(func() string {
